@@ -40,6 +40,9 @@ Apply(st, o) ==
             IF o.type = "?" THEN [st |-> st, obs |-> [ret |-> (IF o.kind = "ppfail" THEN -2 ELSE -5), status |-> 0, out |-> ""]]
             ELSE IF o.type = "p" THEN [st |-> st, obs |-> [ret |-> (IF o.kind = "ppfail" THEN -2 ELSE 0), status |-> 0, out |-> ""]]
             ELSE IF o.type = "1" THEN [st |-> st, obs |-> [ret |-> (IF o.kind = "ppfail" THEN -2 ELSE IF o.kind = "parsefail" THEN -3 ELSE 0), status |-> 0, out |-> ""]]
+            \* assembly text: compiled and run like SQF text; text that is not assembly is a parse failure
+            ELSE IF o.type = "a" THEN (IF o.kind = "asmok" THEN [st |-> [st EXCEPT ![o.i].g = "1"], obs |-> [ret |-> 0, status |-> 0, out |-> ""]]
+                                       ELSE [st |-> st, obs |-> [ret |-> -3, status |-> 0, out |-> ""]])
             ELSE \* type "s"
            (CASE o.kind = "setg1" -> [st |-> [st EXCEPT ![o.i].g = "1"], obs |-> [ret |-> 0, status |-> 0, out |-> ""]]
               [] o.kind = "setg2" -> [st |-> [st EXCEPT ![o.i].g = "2"], obs |-> [ret |-> 0, status |-> 0, out |-> ""]]
